@@ -30,9 +30,16 @@ def q(s):
     return s
 
 
-def cif_text(atoms):
-    """atoms: dicts(rec, serial, name, alt, resn, chain, label_chain, seq, icode, xyz, occ, b, elem, charge, model)."""
-    out = [HEADER, "loop_"] + ["_atom_site." + i + " " for i in ITEMS]
+OPTIONAL_ITEMS = ["label_entity_id", "label_seq_id", "auth_comp_id", "auth_atom_id"]
+
+
+def cif_text(atoms, order=None, omit=()):
+    """atoms: dicts(rec, serial, name, alt, resn, chain, label_chain, seq, icode, xyz, occ, b, elem, charge, model).
+
+    order: permutation of range(len(ITEMS)) (column order of the atom_site loop);
+    omit: optional items left out (third-party writers do not emit all 21 items)."""
+    cols = [i for i in (order or range(len(ITEMS))) if ITEMS[i] not in omit]
+    out = [HEADER, "loop_"] + ["_atom_site." + ITEMS[i] + " " for i in cols]
     for a in atoms:
         row = [
             a["rec"], str(a["serial"]), a["elem"], q(a["name"]), a["alt"] if a["alt"].strip() else ".", a["resn"],
@@ -41,14 +48,17 @@ def cif_text(atoms):
             "%.2f" % a["occ"], "%.2f" % a["b"], a["charge"] if a["charge"] else "?", str(a["seq"]), a["resn"], a["chain"],
             q(a["name"]), str(a["model"]),
         ]  # fmt: skip
-        out.append(" ".join(row) + " ")
+        out.append(" ".join(row[i] for i in cols) + " ")
     out.append("# ")
     return "\n".join(out) + "\n"
 
 
 def pdb_text(atoms):
     lines = []
-    models = sorted({a["model"] for a in atoms})
+    models = []
+    for a in atoms:  # file order = order of first appearance (not numeric order)
+        if a["model"] not in models:
+            models.append(a["model"])
     for m in models:
         if len(models) > 1:
             lines.append("MODEL     %4d" % m)
